@@ -400,7 +400,7 @@ def run(ctx):
                 # state leaks between calls: a sibling call (same winner/tally/threshold/distinct ballots, other
                 # multiplicities) right after the first one
                 ctx.count("sibling_calls")
-                ctx.guard("check_call_sibling", check_call, ctx, sibling_call(ctx.rnd, c))
+                ctx.guard("check_call_sibling", check_call, ctx, dict(sibling_call(ctx.rnd, c), prelude=c))
     nr = ctx.n(3500, 80000)
     maxn = 6 if ctx.quick else 8
     for i in range(nr):
